@@ -1,20 +1,17 @@
 import OZ.Drv.C20Util
-import OZ.Model.RegIrs
+import OZ.Model.RegIrsMon
 /-
 `irs ...` sub-driver of C20: identity registry storage (identity, profile with country data,
 `RecoveredTo`). Universe: accounts 0..na-1. A country data entry prints as `code/m/len`.
 -/
 namespace OZ.Drv.C20.Irs
-open OZ.Drv OZ.Drv.C20 OZ.RegIrs
+open OZ.Drv OZ.Drv.C20 OZ.RegIrs OZ.RegIrs.Mon
 
 structure M where
   s : State
   na : Nat
 
 def initM (ws : List String) : M := { s := init, na := (kvNat? ws "na").getD 4 }
-
-def showCD (c : CD) : String := s!"{c.code}/{c.metaN}/{c.metaLen}"
-def showCDs (l : List CD) : String := sepBy "+" (l.map showCD)
 
 def parseCD (s : String) : Option CD :=
   match s.splitOn "/" with
@@ -62,106 +59,30 @@ def stepLine (m : M) (line : String) : M × String :=
     | .ok s' => let m' := { m with s := s' }; (m', "ok " ++ showState m')
     | .error _ => (m, "err " ++ showState m)
 
-/-! ### monitor: plain maps account -> (identity, type, countries) and old -> new -/
-
-structure Rec where
-  acct : Nat
-  ident : Nat
-  ty : Nat
-  cs : List CD
-  deriving BEq
-
-structure Mon where
-  recs : List Rec
-  recovered : List (Nat × Nat)
-  na : Nat
+/-! ### monitor: parsing only; the checks are `OZ.RegIrs.Mon.checkCore` (OZ/Model/RegIrsMon.lean),
+proved sound in OZ/Props/C20fMon.lean. `showCD` / `showCDs` (used by `showState` above) live there too. -/
 
 def minit (ws : List String) : Mon := { recs := [], recovered := [], na := (kvNat? ws "na").getD 4 }
 
-def find (g : Mon) (a : Nat) : Option Rec := g.recs.find? (fun r => r.acct == a)
-def put (g : Mon) (r : Rec) : Mon := { g with recs := g.recs.filter (fun x => x.acct ≠ r.acct) ++ [r] }
-def del (g : Mon) (a : Nat) : Mon := { g with recs := g.recs.filter (fun x => x.acct ≠ a) }
-def okCD (c : CD) : Bool := c.metaN ≤ 10 ∧ (c.metaN = 0 ∨ c.metaLen ≤ 100)
-/-- an entry sitting exactly on a metadata limit -/
-def edgeCD (c : CD) : Bool := c.metaN = 10 ∨ (c.metaN > 0 ∧ c.metaLen = 100)
-
-def plain (g : Mon) (op : Op) : Except String Mon :=
-  match op with
-  | .add a i ty cs =>
-    if (g.recovered.find? (fun p => p.1 == a)).isSome then .error "recovered_registered_again"
-    else if cs = [] then .error "empty" else if cs.length > 15 then .error "limit.add_identity.countries"
-    else if !cs.all okCD then .error "limit.add_identity.metadata"
-    else if (find g a).isSome then .error "dup"
-    else .ok (put g ⟨a, i, ty, cs⟩)
-  | .modify a i => match find g a with
-    | some r => .ok (put g { r with ident := i })
-    | none => .error "absent"
-  | .remove a => if (find g a).isSome then .ok (del g a) else .error "absent"
-  | .recover o n =>
-    if (g.recovered.find? (fun p => p.1 == n)).isSome then .error "recovered_registered_again"
-    else match find g o with
-      | none => .error "absent"
-      | some r =>
-        if (find g n).isSome then .error "dup"
-        else .ok { (put (del g o) { r with acct := n }) with recovered := g.recovered ++ [(o, n)] }
-  | .addCountries a cs =>
-    if cs = [] then .error "empty" else if !cs.all okCD then .error "limit.add_country_data_entries.metadata"
-    else match find g a with
-      | none => .error "absent"
-      | some r => if (r.cs ++ cs).length > 15 then .error "limit.add_country_data_entries.countries" else .ok (put g { r with cs := r.cs ++ cs })
-  | .modifyCountry a i c =>
-    if !okCD c then .error "limit.modify_country_data.metadata"
-    else match find g a with
-      | none => .error "absent"
-      | some r => if i ≥ r.cs.length then .error "absent" else .ok (put g { r with cs := r.cs.set i c })
-  | .deleteCountry a i => match find g a with
-    | none => .error "absent"
-    | some r => if r.cs.length = 1 then .error "empty" else if i ≥ r.cs.length then .error "absent"
-                else .ok (put g { r with cs := r.cs.eraseIdx i })
-
 def entries (s : String) : List (List String) := (parts "," s).map (·.splitOn ":")
 
-def check (g : Mon) (opl obs : String) : Mon × Option String :=
+def parseObs (obs : String) : Obs :=
   let ws := words obs
-  let ok := ws.head? == some "ok"
+  { ok := ws.head? == some "ok",
+    ID := kvS ws "ID",
+    PR := kvS ws "PR",
+    CE := kvS ws "CE",
+    RT := kvS ws "RT",
+    CD := kvS ws "CD",
+    RTe := entries (kvS ws "RT"),
+    IDe := entries (kvS ws "ID") }
+
+def check (g : Mon) (opl obs : String) : Mon × Option String :=
   match parseOp (words opl) with
   | none => (g, some s!"site=irs.parse bad op {opl}")
-  | some op =>
-    let (g2, accept) : Mon × Option String :=
-      match plain g op, ok with
-      | .ok g', true => (g', none)
-      | .error _, false => (g, none)
-      | .ok _, false => (g, some (
-          let near := match op with
-            | .add _ _ _ cs => if cs.length = 15 then "limit.add_identity.countries"
-                                else if cs.any edgeCD then "limit.add_identity.metadata" else "valid"
-            | .addCountries a cs => (match find g a with
-                | some r => if (r.cs ++ cs).length = 15 then "limit.add_country_data_entries.countries"
-                            else if cs.any edgeCD then "limit.add_country_data_entries.metadata" else "valid"
-                | none => "valid")
-            | .modifyCountry _ _ c => if edgeCD c then "limit.modify_country_data.metadata" else "valid"
-            | _ => "valid"
-          refusedSite "irs" near))
-      | .error why, true => (g, some (acceptedSite "irs" why))
-    let as := List.range g2.na
-    let idWant := as.map (fun a => s!"{a}:{showOpt ((find g2 a).map (·.ident))}")
-    let prWant := as.map (fun a => match find g2 a with
-      | some r => s!"{a}:{r.ty}:{showCDs r.cs}"
-      | none => s!"{a}:x")
-    let ceWant := as.map (fun a => s!"{a}:{showCDs (((find g2 a).map (·.cs)).getD [])}")
-    let rtWant := as.map (fun a => s!"{a}:{showOpt ((g2.recovered.find? (fun p => p.1 == a)).map (·.2))}")
-    let cdWant := as.map (fun a =>
-      let cs := ((find g2 a).map (·.cs)).getD []
-      s!"{a}:{sepBy "+" (cs.map showCD ++ ["x"])}")
-    let fail := firstFail [accept,
-      chk (kvS ws "ID" = sepBy "," idWant) s!"site=irs.map stored_identity = {kvS ws "ID"} but the plain map gives {sepBy "," idWant}",
-      chk (kvS ws "PR" = sepBy "," prWant) s!"site=irs.map get_identity_profile = {kvS ws "PR"} but the plain map gives {sepBy "," prWant}",
-      chk (kvS ws "CE" = sepBy "," ceWant) s!"site=irs.map get_country_data_entries differs from the plain map",
-      chk (kvS ws "RT" = sepBy "," rtWant) s!"site=irs.recovered get_recovered_to = {kvS ws "RT"} but the plain map gives {sepBy "," rtWant}",
-      chk (kvS ws "CD" = sepBy "," cdWant) s!"site=irs.enumerates_once get_country_data by index differs from the plain list",
-      chk ((entries (kvS ws "RT")).all (fun e => match e with
-          | [a, v] => v = "x" ∨ (entries (kvS ws "ID")).contains [a, "x"]
-          | _ => false)) "site=irs.recovered_registered_again a recovered account holds an identity"]
-    (g2, fail)
+  | some op => checkCore g op (parseObs obs)
+
+/-- the monitor state type, as the dispatcher OZ/Drv/C20.lean names it -/
+abbrev MonT := OZ.RegIrs.Mon.Mon
 
 end OZ.Drv.C20.Irs
